@@ -85,6 +85,9 @@ namespace sim
 
 	void http_proxy::on_read_request(error_code const& ec, size_t bytes_transferred) try
 	{
+		// the connection this operation belonged to has been torn down already
+		if (ec == asio::error::operation_aborted) return;
+
 		if (ec)
 		{
 			std::printf("http_proxy::on_read_request: (%d) %s\n"
@@ -254,6 +257,9 @@ namespace sim
 
 	void http_proxy::on_connected(boost::system::error_code const& ec)
 	{
+		// the connection this operation belonged to has been torn down already
+		if (ec == asio::error::operation_aborted) return;
+
 		if (ec)
 		{
 			std::printf("http_proxy::on_connected() connection failed: %s\n", ec.message().c_str());
@@ -282,6 +288,9 @@ namespace sim
 
 	void http_proxy::on_server_write(error_code const& ec, size_t bytes_transferred)
 	{
+		// the connection this operation belonged to has been torn down already
+		if (ec == asio::error::operation_aborted) return;
+
 		m_writing_to_server = false;
 		if (ec)
 		{
@@ -303,6 +312,9 @@ namespace sim
 	void http_proxy::on_server_receive(boost::system::error_code const& ec
 		, std::size_t bytes_transferred)
 	{
+		// the connection this operation belonged to has been torn down already
+		if (ec == asio::error::operation_aborted) return;
+
 		if (ec)
 		{
 			std::printf("http_proxy: error reading from server: (%d) %s\n"
@@ -318,6 +330,9 @@ namespace sim
 	void http_proxy::on_server_forward(error_code const& ec
 		, size_t)
 	{
+		// the connection this operation belonged to has been torn down already
+		if (ec == asio::error::operation_aborted) return;
+
 		if (ec)
 		{
 			std::printf("http_proxy: error writing to client: (%d) %s\n"
